@@ -523,6 +523,8 @@ func (a *Atom) eval(env *EvalEnv) (float64, error) {
 			return math.Sqrt(args[0]), nil
 		case "abs":
 			return math.Abs(args[0]), nil
+		case "clamp":
+			return math.Max(args[1], math.Min(args[0], args[2])), nil
 		case "max":
 			return math.Max(args[0], args[1]), nil
 		case "min":
